@@ -74,6 +74,7 @@ class RuleTable:
         self.setattrs = []  # (class qual, attr name, target ref, mod, site)
         self.undecided = []  # (mod, site, reason)
         self.sites = 0
+        self._depth = 0
         for m in repo.mods.values():
             self._run_body(m, m.tree.body, {})
 
@@ -110,6 +111,16 @@ class RuleTable:
                 self._run_body(m, st.body, env)
             elif isinstance(st, ast.With):
                 self._run_body(m, st.body, env)
+            elif isinstance(st, ast.Assign) and len(st.targets) == 1 and isinstance(st.targets[0], ast.Attribute):
+                # Cls.name = target   (same effect as setattr(Cls, "name", target))
+                t = st.targets[0]
+                cls = self._resolve(m, t.value, env)
+                if cls is not None and cls.kind == "repo" and cls.okind == "class" and not isinstance(st.value, ast.Constant):
+                    self.sites += 1
+                    tgt = self._resolve(m, st.value, env)
+                    self.setattrs.append((cls.qual, t.attr, tgt, m, st, subst(st.value, env)))
+                    if tgt is None:
+                        self.undecided.append((m, st, f"attribute assignment target for {t.attr} unresolved"))
 
     def _eval_version_cond(self, m, test):
         """Concrete value of a NumpyVersion / __version__ comparison under the installed numpy."""
@@ -202,6 +213,42 @@ class RuleTable:
                     maker = c.args[1] if len(c.args) > 1 else None
                     self.vspace_reg.append((cls.qual, norm_text(arg0), tref, maker, m, c))
                     return
+        if fref is not None and fref.kind == "repo" and fref.okind == "def" and isinstance(fref.node, ast.FunctionDef) and not fref.node.decorator_list:
+            # a module-level helper that performs registrations: interpret its body with the parameters bound
+            fn = fref.node
+            if _contains_reg_call(fn) and self._depth < 3:
+                a = fn.args
+                params = [p.arg for p in a.posonlyargs + a.args]
+                if a.vararg or a.kwarg or a.kwonlyargs or len(c.args) > len(params) or any(isinstance(x, ast.Starred) for x in c.args):
+                    self.undecided.append((m, c, f"registration helper {fref.qual} called with an unsupported signature"))
+                    return
+                env2 = {}
+                ok = True
+                for p_, x in zip(params, c.args):
+                    v = subst(x, env)
+                    env2[p_] = v if (fref.mod is m or isinstance(v, _Foreign)) else _Foreign(m, v)
+                for k in c.keywords:
+                    if k.arg in params:
+                        v = subst(k.value, env)
+                        env2[k.arg] = v if (fref.mod is m or isinstance(v, _Foreign)) else _Foreign(m, v)
+                    else:
+                        ok = False
+                defaults = dict(zip(params[len(params) - len(a.defaults):], a.defaults))
+                for p_ in params:
+                    if p_ not in env2:
+                        if p_ in defaults:
+                            env2[p_] = defaults[p_]
+                        else:
+                            ok = False
+                if not ok:
+                    self.undecided.append((m, c, f"registration helper {fref.qual}: arguments not bound"))
+                    return
+                self._depth += 1
+                try:
+                    self._run_body(fref.mod, fn.body, env2)
+                finally:
+                    self._depth -= 1
+            return
         if fref is not None and fref.qual == "builtins.setattr" and len(c.args) == 3:
             cls = self._resolve(m, c.args[0], env)
             name = subst(c.args[1], env)
